@@ -88,6 +88,8 @@ func c02entries() []c02entry {
 		{"PrintContext", slog.AlwaysLevel, true, func(l *slog.Entry, m string, a []any) { l.PrintContext(bg, m, a...) }},
 		{"LogAttrs(Info)", slog.InfoLevel, false, func(l *slog.Entry, m string, a []any) { l.LogAttrs(bg, slog.InfoLevel, m, a...) }},
 		{"InfoContext(nil ctx)", slog.InfoLevel, false, func(l *slog.Entry, m string, a []any) { l.InfoContext(nilCtx(), m, a...) }},
+		// the explicit-timestamp entry point, handed no program counter (a queued record replayed by a worker): layer C2 only
+		{"WriteThru(Info, no program counter)", slog.InfoLevel, false, func(l *slog.Entry, m string, a []any) { l.WriteThru(bg, slog.InfoLevel, fixedTime, 0, m, slog.NewAttrs("k", 1, "s", "v")) }},
 		{"slog.Println(args only) [default logger]", slog.AlwaysLevel, true, nil},
 		{"slog.Info [default logger]", slog.InfoLevel, false, nil},
 	}
@@ -110,7 +112,8 @@ type c02case struct {
 
 var c02flagNames = map[string]slog.Flags{"Lcaller": slog.Lcaller, "LattrsR": slog.LattrsR, "LlocalTime": slog.LlocalTime}
 
-var c02dests = []string{"1 normal", "2 normal + 2 error", "2 normal + 2 error + per-level(Info,Always)", "2 normal + 2 error + per-level writers (Info,Warn,Error,Always) added and removed again", "9 normal + 9 error"}
+var c02dests = []string{"1 normal", "2 normal + 2 error", "2 normal + 2 error + per-level(Info,Always)", "2 normal + 2 error + per-level writers (Info,Warn,Error,Always) added and removed again", "9 normal + 9 error",
+	"2 normal + 2 error writers without a Close method; the sets the logger hands out (GetWriter / GetWriterBy) were closed before the call"}
 
 // c02configure builds the destination set; returns writer names by class.
 func c02configure(l *slog.Entry, rec *recorder, dest int) (normal, errw []string, leveled map[slog.Level][]string) {
@@ -121,6 +124,16 @@ func c02configure(l *slog.Entry, rec *recorder, dest int) (normal, errw []string
 		w := mk("n1")
 		l.SetWriter(w).SetErrorWriter(w)
 		return []string{"n1"}, []string{"n1"}, leveled
+	case 5:
+		l.SetWriter(mk("n1")).AddWriter(mk("n2"))
+		l.SetErrorWriter(mk("e1")).AddErrorWriter(mk("e2"))
+		// a shutdown path closed what it was handed; writers that have no Close method stay what they are
+		for _, lv := range []slog.Level{slog.InfoLevel, slog.ErrorLevel, slog.AlwaysLevel} {
+			if w := l.GetWriterBy(lv); w != nil {
+				_ = w.Close()
+			}
+		}
+		return []string{"n1", "n2"}, []string{"e1", "e2"}, leveled
 	case 4:
 		for i := 1; i <= 9; i++ {
 			l.AddWriter(mk(fmt.Sprintf("n%d", i)))
@@ -349,7 +362,12 @@ func c01restoreModes() {
 
 func c02cases(thorough bool, emit func(c02case)) {
 	toks := c02tokens()
-	ents := c02entries()
+	var ents []c02entry
+	for _, e := range c02entries() {
+		if !strings.HasPrefix(e.name, "WriteThru(") { // (not gated by the logger level: used in its own layer only)
+			ents = append(ents, e)
+		}
+	}
 	formats := []string{"color", "json", "logfmt"}
 	// all argument lists up to maxLen
 	maxLen := 2
@@ -408,7 +426,7 @@ func c02cases(thorough bool, emit func(c02case)) {
 		for _, e := range ents {
 			for _, f := range formats {
 				for _, lv := range levels {
-					for d := 0; d < 5; d++ {
+					for d := 0; d < 6; d++ {
 						emit(c02case{Layer: "B-msg-level-dest", Entry: e.name, MsgQ: qk(m), Args: []string{`"k"`, "1"}, Format: f, Level: int(lv), Dest: d})
 						if d == 0 && lv == slog.TraceLevel {
 							emit(c02case{Layer: "B2-after-a-prior-record", Entry: e.name, MsgQ: qk(m), Args: []string{`"k"`, "1"}, Format: f, Level: int(lv), Dest: d, Prior: true})
@@ -439,6 +457,9 @@ func c02cases(thorough bool, emit func(c02case)) {
 			}
 		}
 		for _, f := range formats {
+			for d := 0; d < 3; d++ {
+				emit(c02case{Layer: "C2-flags-no-program-counter", Entry: "WriteThru(Info, no program counter)", MsgQ: qk("a\nb"), Format: f, Flags: fs, Level: int(slog.TraceLevel), Dest: d})
+			}
 			for _, t := range toks {
 				for d := 0; d < 3; d++ {
 					for _, e := range []string{"Info", "Error", "Print", "slog.Info [default logger]"} {
